@@ -68,3 +68,56 @@ def install(world):     # noqa
     _orig_install(world)
     world.models['time.asctime'] = m_asctime
     world.models['sys.version'] = None
+
+
+def m_ordereddict(it, args, kwargs):
+    return B.make_dict(it, args, kwargs, ordered='OrderedDict')
+
+
+_orig_install2 = install
+
+
+def install(world):     # noqa
+    _orig_install2(world)
+    world.models['collections.OrderedDict'] = m_ordereddict
+    world.models['ordereddict.OrderedDict'] = m_ordereddict
+
+
+valid_time = z3.Function('valid_time', z3.StringSort(), z3.StringSort(), z3.BoolSort())   # strptime accepts (s, fmt)
+parsed_time = z3.Function('parsed_time', z3.StringSort(), z3.StringSort(), pv.PV)
+format_time = z3.Function('format_time', z3.StringSort(), pv.PV, z3.StringSort())
+
+
+def m_strptime(it, args, kwargs):
+    if isinstance(args[0], str) and isinstance(args[1], str):
+        import time as _t
+        try:
+            _t.strptime(args[0], args[1])
+            it.ctx.assume(valid_time(z3.StringVal(args[0]), z3.StringVal(args[1])))
+        except ValueError:
+            it.ctx.assume(z3.Not(valid_time(z3.StringVal(args[0]), z3.StringVal(args[1]))))
+    s_, f_ = pv.as_term_str(args[0]), pv.as_term_str(args[1])
+    it.ctx.note('time.strptime / strftime: trusted (uninterpreted valid_time / parsed_time / format_time)')
+    if not it.spec() and not it.ctx.branch(valid_time(s_, f_), 'strptime'):
+        it.raise_py('ValueError', 'time data does not match format')
+    return SAny(parsed_time(s_, f_))
+
+
+def m_strftime(it, args, kwargs):
+    return SStr(format_time(pv.as_term_str(args[0]), lift(args[1])))
+
+
+def sp_valid_time(it, args, kwargs):
+    return pv.mkbool(valid_time(pv.as_term_str(args[0]), pv.as_term_str(args[1])))
+
+
+_orig_install3 = install
+
+
+def install(world):     # noqa
+    _orig_install3(world)
+    world.models['time.strptime'] = m_strptime
+    world.models['time.strftime'] = m_strftime
+    B.SPEC_FUNCS['strptime'] = m_strptime
+    B.SPEC_FUNCS['strftime'] = m_strftime
+    B.SPEC_FUNCS['valid_time'] = sp_valid_time
